@@ -282,9 +282,33 @@ def op_int(body, op, depth=4):
     return None
 
 
+def splice_predicates(prog, b):
+    """`b` with the small private boolean predicates it calls spliced in (`read.is_eof()` for `amount_read == 0`): a test that was
+    given a name is still the same test for the guard rules"""
+    if b is None:
+        return None
+    from .inline import inlined
+
+    def want(cb):
+        if cb.raw.get("derived") or cb.crate != b.crate or cb.raw.get("coroutine") or cb.kind not in ("Fn", "AssocFn"):
+            return False
+        if cb.raw.get("pub") or cb.raw.get("exported") or cb.local_ty(0) != "bool" or len(cb.blocks) > 8:
+            return False
+        from .inline import module_of
+        if module_of(cb) != module_of(prog.bodies.get(b.root, b)):
+            return False        # predicates of other modules (ResponseBuilder::is_frame_in_progress) are anchors of their own rules
+        return not any((callee(t) or {}).get("def", "").startswith(cb.crate + "::") for _, t in cb.calls())
+    nb = inlined(prog, b, want, depth=1)
+    return nb if nb.raw.get("inlined") else b
+
+
 def logic_or_inlined(prog, fn, anchors):
     """logic body of `fn`; when the anchor call sits in a private sync helper of the connection (e.g. the parse step moved into
     `parse_received`), the body with such helpers spliced in (A12)"""
+    return splice_predicates(prog, _logic_or_inlined(prog, fn, anchors))
+
+
+def _logic_or_inlined(prog, fn, anchors):
     b = logic_body(prog, fn, anchors)
     if b is not None:
         return b
